@@ -15,8 +15,9 @@ Variable H : list N -> list N.
 Variable expected : N -> list N.
 Variable npieces : N.
 Variable psize : N -> N.
-Notation accept := (accept H expected npieces psize).
-Notation run := (run H expected npieces psize).
+Variable repaired : bool.
+Notation accept := (accept H expected npieces psize repaired).
+Notation run := (run H expected npieces psize repaired).
 
 Lemma lenN_0 : forall (d : list N), lenN d = 0 -> d = [].
 Proof. intros [|x d]; unfold lenN; simpl; [reflexivity | lia]. Qed.
@@ -61,7 +62,7 @@ Theorem no_fatal_partial : forall st0 c0 tr s e s',
   end.
 Proof.
   intros st0 c0 tr s e s' Hi R A.
-  pose proof (inv_run H expected npieces psize tr _ _ (inv_init H expected npieces st0 c0 Hi) R) as (I1 & I2 & I3 & _).
+  pose proof (inv_run H expected npieces psize repaired tr _ _ (inv_init H expected npieces st0 c0 Hi) R) as (I1 & I2 & I3 & _).
   destruct e; auto.
   - unfold Model.accept in A. destruct (pmark s); [discriminate|].
     destruct ((i <? npieces) && negb (listed s i) && negb (memN i (completed s))) eqn:G; [|discriminate].
@@ -115,13 +116,13 @@ Definition stuck_check (s : state) : bool :=
   memN 1 (conns s) && negb (memN 0 (completed s)) && listed s 0 &&
   forallb (fun x => negb (finished x) && match b_queued x with [] => true | _ => false end) (blocks s) &&
   match curs s, hashing s, pmark s with [], [], None => true | _, _, _ => false end &&
-  forallb (fun pb => match accept toyH toy_expected 1 toy_psize s (EIns (fst pb) 0 (snd pb)) with None => true | Some _ => false end)
+  forallb (fun pb => match accept toyH toy_expected 1 toy_psize false s (EIns (fst pb) 0 (snd pb)) with None => true | Some _ => false end)
           [(0, 0); (0, 1); (1, 0); (1, 1)].
 
 Theorem eventually_done_refuted :
-  exists s, run toyH toy_expected 1 toy_psize toy_init toy_trace = Some s /\ stuck_check s = true.
+  exists s, run toyH toy_expected 1 toy_psize false toy_init toy_trace = Some s /\ stuck_check s = true.
 Proof.
-  destruct (run toyH toy_expected 1 toy_psize toy_init toy_trace) as [s|] eqn:E.
+  destruct (run toyH toy_expected 1 toy_psize false toy_init toy_trace) as [s|] eqn:E.
   - exists s. split; [reflexivity|]. revert E. vm_compute. intro E. inversion E. reflexivity.
   - exfalso. revert E. vm_compute. discriminate.
 Qed.
@@ -134,12 +135,37 @@ Definition ex_trace : list event :=
   [ EConn 0; ENew 0; EIns 0 0 0; EPiece 0 0 0 3 true; EData 0 [1; 2]; EData 0 [3];
     EHashQueued 0; EHashDone 0 true; EMark 0; EHave 0; EDone ].
 Example ex_accepted :
-  exists s, run ex_H ex_expected 1 ex_psize (init [[0; 0; 0]] []) ex_trace = Some s /\
+  exists s, run ex_H ex_expected 1 ex_psize true (init [[0; 0; 0]] []) ex_trace = Some s /\
             completed s = [0] /\ done s = true /\ piece s 0 = [1; 2; 3] /\ haves s = [0].
 Proof. eexists. vm_compute. repeat split. Qed.
 Example ex_init_ok : init_ok ex_H ex_expected [[0; 0; 0]] [].
 Proof. intros i []. Qed.
 Example ex_corrupt_rejected_mark :
-  run ex_H ex_expected 1 ex_psize (init [[0; 0; 0]] [])
+  run ex_H ex_expected 1 ex_psize true (init [[0; 0; 0]] [])
       [ EConn 0; ENew 0; EIns 0 0 0; EPiece 0 0 0 3 true; EData 0 [1; 2; 9]; EHashQueued 0; EHashDone 0 true ] = None.
 Proof. vm_compute. reflexivity. Qed.
+
+(* ---------- the stale-transfer repair (Block::insert ignores the finished leftovers of failed attempts) ----------
+   With the repaired guard, BlockList::do_all_failed makes every block of the piece requestable again from EVERY connected
+   peer: the leftovers moved out of the way, no leader, nothing in flight. (With the old guard this is exactly what fails:
+   eventually_done_refuted.) *)
+Theorem reset_block_insertable :
+  forall (H : list N -> list N) (expected : N -> list N) (npieces : N) (psize : N -> N) s i s',
+  accept H expected npieces psize true s (EHashDone i false) = Some s' -> attempt_of s i <> 0 ->
+  forall b x p, find_block s' i b = Some x -> In p (conns s') -> memN p (b_queued x) = false ->
+  b_trans x = [] /\ b_leader x = None /\ accept H expected npieces psize true s' (EIns p i b) <> None.
+Proof.
+  intros H expected npieces psize s i s' A Hat b x p Fx Hp Hq.
+  unfold accept in A. destruct (pmark s) eqn:PM; [discriminate|].
+  destruct (memN i (hashing s) && _); [|discriminate]. inversion A; subst s'; clear A.
+  assert (E : attempt_of (with_hashing s (removeN i (hashing s))) i =? 0 = false) by (apply N.eqb_neq; exact Hat).
+  unfold hash_failed in *. rewrite E in *. cbn [blocks conns pmark] in *.
+  destruct (find_block_some _ _ _ _ Fx) as (Hx & Ei & _). cbn [blocks] in Hx.
+  unfold upd_piece_blocks in Hx. apply in_map_iff in Hx. destruct Hx as (y & Ey & Hy).
+  assert (Eiy : b_idx y =? i = true).
+  { destruct (b_idx y =? i) eqn:B; [reflexivity|]. subst x. apply N.eqb_neq in B. contradiction. }
+  rewrite Eiy in Ey. subst x. cbn [b_trans b_leader fail_leader]. repeat split.
+  unfold accept. cbn [pmark with_hashing]. rewrite PM. unfold find_block in Fx. cbn [blocks] in Fx. unfold find_block. cbn [blocks]. rewrite Fx.
+  cbn [conns with_hashing]. apply memN_In in Hp. cbn [conns with_hashing] in Hp. rewrite Hp.
+  unfold finished, ins_refused. cbn [b_leader b_trans b_queued fail_leader has_tr existsb negb andb orb] in *. rewrite Hq. discriminate.
+Qed.
